@@ -16,6 +16,8 @@ CONSTANTS Keys,    \* set of key codes
           Gaps,    \* set of tick gaps between presses
           Hold,    \* set of hold times (ticks between the last press and the first release)
           RGaps,   \* set of tick gaps between releases
+          RProbe,  \* {} or {code}: a probe key tapped once somewhere in the release phase (before the i-th release / after
+                   \* the last): shows an effect of the chord action that only a later key reveals (a held layer)
           Other,   \* {} or {code}: an extra (non-chord or foreign) key pressed once somewhere in the press phase
           MinSize, \* only subsets with at least this many keys
           AllRel,  \* TRUE: every release order; FALSE: only the press order and its reverse
@@ -40,12 +42,21 @@ InterO(f, g, i, pos, o) ==
   ELSE (IF pos = i THEN <<<<"d", o>>, <<"u", o>>>> ELSE <<>>)
        \o <<<<"d", f[i]>>>> \o (IF i < Len(f) /\ g[i] > 0 THEN <<<<"t", g[i]>>>> ELSE <<>>) \o InterO(f, g, i + 1, pos, o)
 
+\* the release phase with the probe key tapped before position pos (pos = n + 1: after the last release)
+RECURSIVE InterR(_, _, _, _, _)
+InterR(f, g, i, pos, o) ==
+  IF i > Len(f) THEN IF pos = i THEN <<<<"d", o>>, <<"t", 1>>, <<"u", o>>>> ELSE <<>>
+  ELSE (IF pos = i THEN <<<<"d", o>>, <<"t", 1>>, <<"u", o>>>> ELSE <<>>)
+       \o <<<<"u", f[i]>>>> \o (IF i < Len(f) /\ g[i] > 0 THEN <<<<"t", g[i]>>>> ELSE <<>>) \o InterR(f, g, i + 1, pos, o)
+
 Tk(n) == IF n > 0 THEN <<<<"t", n>>>> ELSE <<>>
 
 ASSUME \A po \in UNION {Perms(S) : S \in {X \in SUBSET Keys : Cardinality(X) >= MinSize}} :
          \A g \in GapVecs(Len(po), Gaps) : \A h \in Hold : \A ro \in RelOrders(po) :
            \A rg \in GapVecs(Len(po), RGaps) :
              /\ PrintT(<<"SCHED", ToJson(Pre \o Inter("d", po, g, 1) \o Tk(h) \o Inter("u", ro, rg, 1) \o Post \o Tk(TailT))>>)
+             /\ \A o \in RProbe : \A pos \in 1..(Len(po) + 1) :
+                  PrintT(<<"SCHED", ToJson(Pre \o Inter("d", po, g, 1) \o Tk(h) \o InterR(ro, rg, 1, pos, o) \o Post \o Tk(TailT))>>)
              /\ \A o \in Other : \A pos \in 1..(Len(po) + 1) :
                   PrintT(<<"SCHED", ToJson(Pre \o InterO(po, g, 1, pos, o) \o Tk(h) \o Inter("u", ro, rg, 1) \o Post \o Tk(TailT))>>)
 
